@@ -2,6 +2,7 @@ package compiler
 
 import (
 	"fmt"
+	"sort"
 
 	"github.com/grafana/cog/internal/ast"
 )
@@ -26,8 +27,25 @@ func (pass *FieldsSetDefault) processObject(_ *Visitor, _ *ast.Schema, object as
 		return object, nil
 	}
 
+	// references are examined in a fixed order: several of them can match the
+	// same field (matching is case-insensitive) and the last one wins.
+	fieldRefs := make([]FieldReference, 0, len(pass.DefaultValues))
+	for fieldRef := range pass.DefaultValues {
+		fieldRefs = append(fieldRefs, fieldRef)
+	}
+	sort.Slice(fieldRefs, func(i, j int) bool {
+		if fieldRefs[i].Package != fieldRefs[j].Package {
+			return fieldRefs[i].Package < fieldRefs[j].Package
+		}
+		if fieldRefs[i].Object != fieldRefs[j].Object {
+			return fieldRefs[i].Object < fieldRefs[j].Object
+		}
+		return fieldRefs[i].Field < fieldRefs[j].Field
+	})
+
 	for i, field := range object.Type.AsStruct().Fields {
-		for fieldRef, value := range pass.DefaultValues {
+		for _, fieldRef := range fieldRefs {
+			value := pass.DefaultValues[fieldRef]
 			if !fieldRef.Matches(object, field) {
 				continue
 			}
